@@ -228,6 +228,7 @@ def run(ctx):
                               "gives %r, expected %s" % (
                                   out[1], want.short if want else
                                   "a library error"))
+    segment_tag_scan_cells(ctx, R, hooks)
     # len(POSFIELDS) of the two segment classes is what the sniffing assumes
     ctx.instance(R)
     ok = len(record_table(repo, seg1).POSFIELDS) == 2 and \
@@ -719,6 +720,57 @@ def run(ctx):
                            "versions None/gfa1/gfa2; VN None/1.0/2.0/3.0; "
                            "vlevel 0/1; strings and Line instances")
 
+
+
+def segment_tag_scan_cells(ctx, R, hooks):
+    """shared by C13 and C20: the syntax sniffing of S lines counts every
+    field that is a tag for the tag grammar as a tag -- every tag the library
+    can write (blanks and punctuation in Z and J values, every datatype
+    letter, both name shapes); on samples by interpretation, and for the
+    whole tag language when the pattern text is visible"""
+    from .regexsites import regex_sites
+    from .. import rx
+    repo = ctx.repo
+    seg1 = repo.cls("line.segment.GFA1")
+    seg2 = repo.cls("line.segment.GFA2")
+    fs = ctx.anchor("Segment._subclass",
+                    repo.cls("line.Segment").find_method("_subclass"))
+    samples = ["xx:Z:a b", 'jj:J:{"a": 1, "b": [1, 2]}', "a1:A:!", "Zz:i:-5",
+               "fl:f:1.5e-3", "hh:H:0AFF", "bb:B:c,1,-2", "zz:Z:~ {}[]:;,",
+               "cm:Z:two  blanks", "x9:Z: leading", "co:Z:trailing "]
+    for tag in samples:
+        for data, want in ((["S", "a", "*", tag], seg1),
+                           (["S", "a", "10", "*", tag], seg2),
+                           (["S", "a", "*", tag, "LN:i:3"], seg1)):
+            ctx.instance(R)
+            out = eval_function(repo, fs, [data], hooks=hooks)
+            ok = out[0] == "return" and out[1] is want
+            ctx.oblige(ok)
+            if not ok:
+                ctx.violation(R, fs.short, "segment with tag %r (%d fields)"
+                              % (tag, len(data)),
+                              "gives %r, expected %s: the tag is not counted "
+                              "as a tag" % (out[1], want.short))
+    for node, pat, mode in regex_sites(fs):
+        if pat is None:
+            continue
+        ctx.instance(R)
+        ok, w = rx.strict(spec.TAG_RE).subset_of(rx.from_regex(pat, mode))
+        ctx.oblige(ok)
+        if not ok:
+            ctx.violation(R, fs.short, "tag test %s" % unparse(node)[:60],
+                          "the pattern %r does not accept the tag %r" % (
+                              pat, w))
+
+
+def rule_segment_tag_scan(ctx, R):
+    ctx.rule(R, "Segment._subclass, which picks the segment class from the "
+             "number of fields that are not tags, counts as a tag every "
+             "field the tag grammar accepts (blanks and punctuation in Z / J "
+             "values, every datatype letter): a written S line is read back "
+             "as a segment of the same version with the same tags", floor=30)
+    segment_tag_scan_cells(ctx, R, GfaHooks(ctx.repo))
+    ctx.exhaustive[R] = True
 
 def sub_order(seq, want):
     """`want` occurs as a subsequence of `seq`."""
